@@ -57,9 +57,20 @@ func genRFaultLargeCase(t *rapid.T, prop string) *Case {
 		op := ROp{Kind: rapid.SampledFrom([]int{ROpDocValues, ROpDocValues, ROpDocValues, ROpPostings, ROpPostings, ROpStored, ROpDict}).Draw(t, "ropkind"),
 			Field: rapid.IntRange(0, 7).Draw(t, "field"), Term: rapid.IntRange(0, 12).Draw(t, "term"), Flags: rapid.IntRange(0, 7).Draw(t, "flags")}
 		if op.Kind == ROpDocValues || op.Kind == ROpStored {
-			k := rapid.IntRange(2, 5).Draw(t, "ndocs")
-			for j := 0; j < k; j++ {
-				op.Docs = append(op.Docs, rapid.SampledFrom([]int{0, 5, 127, 128, 700, 1023, 1024, 1025, 1500, 2047, 2048, 2090}).Draw(t, "doc"))
+			if rapid.IntRange(0, 1).Draw(t, "cluster") == 0 {
+				// neighbours in one chunk, then a far document, then the neighbours again
+				b := rapid.SampledFrom([]int{0, 3, 126, 700, 1020, 1024, 1500, 2046, 2050}).Draw(t, "base")
+				far := rapid.SampledFrom([]int{0, 900, 1024, 1100, 2048, 2090, 3100}).Draw(t, "far")
+				if rapid.IntRange(0, 1).Draw(t, "short") == 0 {
+					op.Docs = []int{b, b + 1, far, b, b + 1}
+				} else {
+					op.Docs = []int{b, b + 1, b + 2, far, b, b + 1, b + 2}
+				}
+			} else {
+				k := rapid.IntRange(2, 5).Draw(t, "ndocs")
+				for j := 0; j < k; j++ {
+					op.Docs = append(op.Docs, rapid.SampledFrom([]int{0, 5, 127, 128, 700, 1023, 1024, 1025, 1500, 2047, 2048, 2090, 3071, 3072}).Draw(t, "doc"))
+				}
 			}
 		}
 		rc.Prog = append(rc.Prog, op)
